@@ -65,7 +65,7 @@ pow2 = z3.Function('pow2', I, I)
 
 
 # regex (opaque patterns)
-RX = z3.DeclareSort('RX')
+RX = I      # regular-expression objects are identified by their (opaque) object id
 rx_pattern = z3.Function('rx_pattern', RX, Bytes)
 rx_found = z3.Function('rx_found', RX, Bytes, B)        # search(buf,0) is not None
 rx_start = z3.Function('rx_start', RX, Bytes, I)
